@@ -375,19 +375,25 @@ end DicomDate
 
 namespace DicomTime
 /-- `AsRange::earliest` (`f * 10^(6-fp)`; `u32::pow(10, 6 - fp)` needs `fp ≤ 6`, true of every
-constructible value) -/
+constructible value).  A leap second `hh:mm:60.f` is handed to chrono in chrono's representation:
+second 59 with `1_000_000 + f` microseconds (/repo fix 011408a; before it second 60 was passed on
+and chrono refused it). -/
 def earliest (v : DicomTime) : Option NaiveTime :=
   let f := match v.fracAndPrecision with
     | none => 0
     | some (f, fp) => f * 10 ^ (6 - fp)
-  NaiveTime.fromHmsMicroOpt v.hr (v.min.getD 0) (v.sec.getD 0) f
+  let s := v.sec.getD 0
+  if s = 60 then NaiveTime.fromHmsMicroOpt v.hr (v.min.getD 0) 59 (f + 1000000)
+  else NaiveTime.fromHmsMicroOpt v.hr (v.min.getD 0) s f
 
 /-- `AsRange::latest` -/
 def latest (v : DicomTime) : Option NaiveTime :=
   let f := match v.fracAndPrecision with
     | none => 999999
     | some (f, fp) => f * 10 ^ (6 - fp) + 10 ^ (6 - fp) - 1
-  NaiveTime.fromHmsMicroOpt v.hr (v.min.getD 59) (v.sec.getD 59) f
+  let s := v.sec.getD 59
+  if s = 60 then NaiveTime.fromHmsMicroOpt v.hr (v.min.getD 59) 59 (f + 1000000)
+  else NaiveTime.fromHmsMicroOpt v.hr (v.min.getD 59) s f
 
 def exact (v : DicomTime) : Option NaiveTime := if v.isPrecise then v.earliest else none
 /-- `to_naive_time` -/
